@@ -783,4 +783,96 @@ theorem overrides_globals_hit (os : List (List Name × Id)) (st : St) (n : Name)
         · subst h1; exact absurd hk' hk
         · exact Or.inr ⟨pv', h1, hk'⟩
 
+/-! ## host-owned inputs shared between configurations (Model: HOpt, build, runBuilds) -/
+
+theorem applyOpt_withGlobals_fold (t : Table) (c : Cfg) :
+    (t.map fun kv => Opt.withGlobal kv.1 kv.2).foldl applyOpt c =
+      { c with globals := putAll c.globals t } := by
+  induction t generalizing c with
+  | nil => rfl
+  | cons kv t ih =>
+    simp only [List.map_cons, List.foldl_cons]
+    rw [ih]
+    simp [applyOpt, putAll]
+
+/-- the code as it is never re-aims `cfg.globals` and never touches a host map: one option -/
+theorem applyHOpt_copy (heap : List (Id × Table)) (c : Cfg) (o : HOpt) :
+    applyHOpt false ⟨heap, none, c⟩ o = ⟨heap, none, (flatten heap [o]).foldl applyOpt c⟩ := by
+  cases o with
+  | globalsMap h =>
+    simp only [applyHOpt, flatten, List.append_nil]
+    cases hm : mtable heap h with
+    | none => simp
+    | some t =>
+      simp only [Bool.false_and, Bool.false_eq_true, ↓reduceIte, Option.getD_some]
+      rw [applyOpt_withGlobals_fold]
+      rfl
+  | opt o =>
+    cases o <;> rfl
+
+theorem flatten_cons (heap : List (Id × Table)) (o : HOpt) (r : List HOpt) :
+    flatten heap (o :: r) = flatten heap [o] ++ flatten heap r := by
+  cases o <;> simp [flatten]
+
+/-- … and any sequence of options: the fold over the host's spelling equals the fold of
+    `applyOpt` over the flattened sequence, the reference stays the Config's own map, and the
+    host's maps are what they were -/
+theorem applyHOpts_copy (opts : List HOpt) (heap : List (Id × Table)) (c : Cfg) :
+    opts.foldl (applyHOpt false) ⟨heap, none, c⟩ =
+      ⟨heap, none, (flatten heap opts).foldl applyOpt c⟩ := by
+  induction opts generalizing c with
+  | nil => rfl
+  | cons o r ih =>
+    rw [List.foldl_cons, flatten_cons heap o r, List.foldl_append, applyHOpt_copy, ih]
+
+/-- the globals table `Config.init` produces does not depend on the module heap -/
+theorem initCfg_globals_indep (g : Table) (m m' : List (Id × Table)) (k k' : List (Id × Id))
+    (ds : List (List Name)) (os : List (List Name × Id)) :
+    (initCfg ⟨g, m, k⟩ ds os).globals = (initCfg ⟨g, m', k'⟩ ds os).globals := by
+  unfold initCfg
+  have hd : ∀ (ds : List (List Name)) (s s' : St), s.globals = s'.globals →
+      (ds.foldl denyParts s).globals = (ds.foldl denyParts s').globals := by
+    intro ds
+    induction ds with
+    | nil => intro s s' h; exact h
+    | cons p ds ih =>
+      intro s s' h
+      simp only [List.foldl_cons]
+      apply ih
+      match p with
+      | [] => exact h
+      | [n] => show terase s.globals n = terase s'.globals n; rw [h]
+      | mname :: a :: r =>
+        show (editMember resolveImpl s mname (a :: r) none).globals =
+          (editMember resolveImpl s' mname (a :: r) none).globals
+        rw [editMember_globals, editMember_globals, h]
+  have ho : ∀ (os : List (List Name × Id)) (s s' : St), s.globals = s'.globals →
+      (os.foldl (fun s pv => overrideParts s pv.1 pv.2) s).globals =
+      (os.foldl (fun s pv => overrideParts s pv.1 pv.2) s').globals := by
+    intro os
+    induction os with
+    | nil => intro s s' h; exact h
+    | cons pv os ih =>
+      intro s s' h
+      simp only [List.foldl_cons]
+      apply ih
+      match hp : pv.1 with
+      | [] => simp only [overrideParts, overrideWith]; exact h
+      | [n] => show tput s.globals n pv.2 = tput s'.globals n pv.2; rw [h]
+      | mname :: a :: r =>
+        show (editMember resolveImpl s mname (a :: r) (some pv.2)).globals =
+          (editMember resolveImpl s' mname (a :: r) (some pv.2)).globals
+        rw [editMember_globals, editMember_globals, h]
+  exact ho os _ _ (hd ds _ _ rfl)
+
+/-- closed form of `build` for the code as it is -/
+theorem build_copy (w : World) (b : Build) :
+    (build false w b).1.heap = w.heap ∧ (build false w b).2 = ⟨none, ownGlobals w.heap b⟩ := by
+  unfold build
+  simp only [applyHOpts_copy]
+  refine ⟨rfl, ?_⟩
+  simp only [HCfg.setGlobals, HCfg.globals, ownGlobals, initFrom, applyOpts]
+  congr 1
+  exact initCfg_globals_indep _ _ _ _ _ _ _
+
 end Risor.C11
